@@ -156,14 +156,10 @@ fn judge_terminal(spec: &ProgSpec, keys: &[char], layout: Layout, mode: u8) -> O
         1 => cli::lace_term(&args, dir.path(), &cli::TermOpts { keys: Some(&typed), piped_stdin: None, stdout_on_tty: true, decoys: &[], envs: &[] }, false, 30),
         _ => {
             // the program's input is the pipe; the keys waiting in the terminal are not for it
-            let (run, decoys_read) = cli::lace_term(&args, dir.path(), &cli::TermOpts { keys: None, piped_stdin: Some(&piped), stdout_on_tty: true, decoys, envs: &[] }, false, 30);
-            if !run.timed_out && decoys_read > 0 {
-                obs.set_fail(
-                    "C03:reads-the-terminal-although-stdin-is-a-pipe",
-                    format!("standard input is a pipe holding {:?}, yet {decoys_read} of the keys waiting in the terminal (stdout) were read\n{}\n{shown}", String::from_utf8_lossy(&piped), run.brief()),
-                );
-                return obs;
-            }
+            // (a program that read them would print what it got from them: the comparison of the
+            // output below decides; how many are left in the queue cannot be read reliably once the
+            // session leader has exited and the terminal was hung up)
+            let (run, _) = cli::lace_term(&args, dir.path(), &cli::TermOpts { keys: None, piped_stdin: Some(&piped), stdout_on_tty: true, decoys, envs: &[] }, false, 30);
             (run, nkeys)
         }
     };
